@@ -18,7 +18,7 @@ from ..recipes import ref as R
 
 LEVEL = "exploration"
 BUDGET_S = {"quick": 75, "thorough": 1500}
-N_RANDOM = {"quick": 250, "thorough": 8000}
+N_RANDOM = {"quick": 1200, "thorough": 30000}
 RTOL = 1e-7
 
 
@@ -100,13 +100,21 @@ def run_case(case, rec):
         try:
             V2o = b.variables(V2)
             got2 = np.asarray(AD.compile_jacobian(es, V2o)(B.point_array(V2, pt)), dtype=float)
-            want2 = np.array([R.ref_jet(D, nd, V2, pt, order=1)[0].g for nd in nodes])
+            jets2 = [R.ref_jet(D, nd, V2, pt, order=1) for nd in nodes]
+            want2 = np.array([j.g for j, _ in jets2])
+            mag2 = max(max(t.mag, t.dmag) for _, t in jets2)
+
+            def agree(a_, b_):
+                # entries equal in the variable order V2 (same tolerance rule as the main comparison; a mismatch here means
+                # entries in the wrong columns, which is O(1) relative, not float noise)
+                return a_.shape == b_.shape and all(close(x_, y_, 1e-6, mag2)[0] for x_, y_ in zip(a_.reshape(-1), b_.reshape(-1)))
+
             rec.cmp(m * n, cell)
-            if got2.shape != want2.shape or not np.allclose(got2, want2, rtol=1e-7, atol=1e-9):
+            if not agree(got2, want2):
                 bad("compile_jacobian", "second-variable-order-on-same-expressions:mismatch", pt, got=got2.tolist(), want=want2.tolist())
             if m == 1:
                 g2 = np.asarray(C.compile_gradient(es[0], V2o)(B.point_array(V2, pt)), dtype=float).reshape(-1)
-                if g2.shape != want2[0].shape or not np.allclose(g2, want2[0], rtol=1e-7, atol=1e-9):
+                if not agree(g2, want2[0]):
                     bad("compile_gradient", "second-variable-order-on-same-expression:mismatch", pt, got=g2.tolist(), want=want2[0].tolist())
         except Exception as ex:
             bad("compile_jacobian", "second-variable-order-raises:" + type(ex).__name__, ex=ex)
